@@ -826,8 +826,9 @@ def gen_prim_src(r: Any, depth: int = 2, *, rng_ok: bool = True) -> str:
     if k < 0.88:
         return r.choice(["true", "false", "nil", "null", "empty", "blank"])
     if rng_ok:
-        a = r.choice([r.choice(INTS[:6]), gen_path_src(r, 1), src_string(r, r.choice(["1", "x"]))])
-        b = r.choice([r.choice(INTS[:6]), gen_path_src(r, 1), src_string(r, "3"), "n", "empty"])
+        small = ["0", "1", "-1", "3", "5", "-2", "1e1"]  # rendered: keep loops short
+        a = r.choice([r.choice(small), gen_path_src(r, 1), src_string(r, r.choice(["1", "x"]))])
+        b = r.choice([r.choice(small), gen_path_src(r, 1), src_string(r, "3"), "n", "empty"])
         return f"({a}..{b})"
     return r.choice(NAMES)
 
@@ -1194,7 +1195,7 @@ def data_sets(r: Any) -> list[dict[str, Any]]:
     rnd: dict[str, Any] = {}
     for k in NAMES + ["empty", "limit", "k"]:
         rnd[k] = r.choice([0, 1, -3, 2.5, "", "w", "a b", True, False, None, [], [1, 2], ["a", "b", "c"],
-                           {"a": 1}, {"b": [1, 2], "size": 9}, Obj(), (1, 2), range(3), "<&>", 10 ** 20])
+                           {"a": 1}, {"b": [1, 2], "size": 9}, Obj(), (1, 2), range(3), "<&>", 12])
     return [{}, rich, alt, rnd]
 
 
@@ -1211,8 +1212,19 @@ def tag_envs() -> dict[bool, Any]:
     if "tag" not in _ENV:
         from liquid2 import DictLoader, Environment
         from liquid2.shopify import Environment as ShopifyEnvironment
-        _ENV["tag"] = {False: Environment(loader=DictLoader(dict(PARTIALS))),
-                       True: ShopifyEnvironment(loader=DictLoader(dict(PARTIALS)))}
+
+        # Resource limits keep generated loops and outputs small; a limit error
+        # is an outcome like any other (same class on both sides).
+        class Env(Environment):
+            loop_iteration_limit = 2000
+            output_stream_limit = 100_000
+
+        class ShopifyEnv(ShopifyEnvironment):
+            loop_iteration_limit = 2000
+            output_stream_limit = 100_000
+
+        _ENV["tag"] = {False: Env(loader=DictLoader(dict(PARTIALS))),
+                       True: ShopifyEnv(loader=DictLoader(dict(PARTIALS)))}
     return _ENV["tag"]
 
 
